@@ -1,5 +1,6 @@
 import Lean.Data.Json
 import Ktm.Codec
+import Ktm.Proto
 /-! Line-protocol driver for the `codec` suite (C15): parses the JSON tree the implementation wrote with the
     model's `fromJ`, writes it again with `toJ`, prints it canonically. A dropped, added or retyped field on
     either side changes the text. Floats cross the wire as `{"$f": token}`. -/
@@ -24,6 +25,10 @@ def handle (j : Json) : String :=
   | "space" => match Space.fromJ t with | some s => s.toJ.print | none => "PARSE-FAIL"
   | "trial" => match Trial.fromJ t with | some s => s.toJ.print | none => "PARSE-FAIL"
   | "hist" => match Hist.fromJ t with | some s => s.toJ.print | none => "PARSE-FAIL"
+  -- C16: `to_proto` of an entry given by its config, `from_proto` of a message (canonical message trees, Ktm/Proto.lean)
+  | "p_hp" => match HP.fromJ t with | some h => (Proto.hpP h).print | none => "PARSE-FAIL"
+  | "p_hp_from" => match Proto.hpFromP t with | some h => h.toJ.print | none => "PARSE-FAIL"
+  | "p_values" => match Proto.valuesFromP t with | some vs => (Proto.valuesP vs).print | none => "PARSE-FAIL"
   | _ => "bad-op"
 
 end DriverCodec
